@@ -13,5 +13,6 @@ CONSTANTS
   Dev_NoDivisionGuard = FALSE
   Dev_CondSameTypeNoPromotion = FALSE
   Dev_BareAddressMinusRejected = FALSE
+  Dev_SwapReassocClobbers = FALSE
 INVARIANTS Inv_AllDefined
 CHECK_DEADLOCK FALSE
